@@ -26,6 +26,12 @@ def swallow(cls, prog, out, ex):
 def namekey(cls, prog, out, ex):
     return cls == 'comment-lost' and re.search(r'[A-Za-z_]\w*\s*--(\[=*\[c\d+x(\nd)?\]=*\]|\s?c\d+x ?\n)\s*=', prog) is not None
 
+@rule("KF-LENIENT-NEWLINE", "full_moon's tokenizer accepts a raw line break inside a quoted string once any escape sequence has been seen (`\"\\'<LF>\"`), which is not Lua; StyLua removes the now 'unnecessary' escape and the raw line break then ends the string (output does not parse / is not a fixpoint). Only reachable from text that no Lua implementation accepts")
+def lenient_newline(cls, prog, out, ex):
+    if 'F-STR' not in ex.get('group', ''): return False
+    m = re.search(r'(["\'])(.*)\1', prog, re.S)
+    return m is not None and ('\n' in m.group(2) or '\r' in m.group(2))
+
 @rule("KF-UNARY-COMMENT", "a comment on its own line between a unary operator and its operand is glued to the operator (`- \\n--c\\na` -> `---c`): the minus becomes part of the comment")
 def unary_comment(cls, prog, out, ex):
     return re.search(r'(-|not|#|~) \n--', prog) is not None and out is not None and re.search(r'---c\d+x', out) is not None
@@ -57,6 +63,8 @@ def fnv(s):
 allinst = []
 for d in dumps:
     for g in json.load(open(d))['groups']:
+        for i in g['instances']:
+            i['group'] = g['group']
         allinst.extend(g['instances'])
 for _once in [0]:
     for inst in allinst:
